@@ -4,9 +4,15 @@ package main
 //
 // The real loop runs on its own goroutine M with a mock Client (an unbuffered channel of
 // server lines, recorded SendCommand lines) and a gated mock AI: GetMove blocks until the
-// scheduler hands it the move to return.  The post-move grace timer is the package variable
-// verifAfter (harness/rewrite/playtak_bot.json), so its expiry is an event of the schedule too.
-// The scheduler makes exactly ONE event ready (a line, an AI answer, the timer expiry) and then
+// scheduler hands it the move to return.  EVERY time.After call of bot.go goes to the package variable
+// verifAfter (harness/rewrite/playtak_bot.json), so the expiry of a timer is an event of the schedule too.
+// Time: the scheduler owns every timer channel the loop created, in creation order (`pending`).  Real
+// time is monotone and every grace period is equally long, so timers expire oldest first: the clock event
+// `ev timer` lets the OLDEST armed timer expire (one buffered tick, as time.After delivers it), whether
+// or not the loop still looks at that channel.  The event does not depend on which channel the program
+// kept: a loop that arms its grace timer at the wrong moment meets the same expiries as the model
+// (lean/TakVerif/Impl/BotTimer.lean) and answers them differently.
+// The scheduler makes exactly ONE event ready (a line, an AI answer, a timer expiry) and then
 // waits until M and all thinker goroutines it spawned are blocked again.  Quiescence is read
 // off a stop-the-world goroutine dump (runtime.Stack(all)): a snapshot in which every goroutine
 // of this session is parked on a channel / select / mutex has no pending wake-up (channel sends
@@ -55,7 +61,9 @@ type botSess struct {
 	accCalls int
 	chats    int
 	overs    int
-	timers   []chan time.Time
+	timers   []chan time.Time // every timer the loop created
+	timed    bool             // C07 `ev` sessions: buffered ticks and the queue below (composed sessions keep the newest-timer op)
+	pending  []chan time.Time // timers armed and not yet expired, oldest first
 	done     chan struct{}
 	mGoid    int64
 	outcome  string // "" while the loop runs, then "end" or "panic"
@@ -231,13 +239,46 @@ func (s *botSess) settleN() (bool, int) {
 	}
 }
 
+// expire: the oldest armed timer expires.  "idle" = none is armed; "fired" = the loop received the tick;
+// "stale" = nobody looks at that channel (the tick stays in its buffer for good).
+func (s *botSess) expire() string {
+	s.mu.Lock()
+	var ch chan time.Time
+	if len(s.pending) > 0 {
+		ch, s.pending = s.pending[0], s.pending[1:]
+	}
+	s.mu.Unlock()
+	if ch == nil {
+		return "idle"
+	}
+	ch <- time.Time{}
+	s.settle()
+	if len(ch) == 0 {
+		return "fired"
+	}
+	return "stale"
+}
+
+// armed: the number of timers that have not expired yet
+func (s *botSess) armed() int {
+	s.mu.Lock()
+	defer s.mu.Unlock()
+	return len(s.pending)
+}
+
 // ---- lifecycle
 
 func botTimerHook(d time.Duration) <-chan time.Time {
 	if v, ok := botSessions.Load(goid()); ok {
 		s := v.(*botSess)
-		ch := make(chan time.Time)
 		s.mu.Lock()
+		var ch chan time.Time
+		if s.timed {
+			ch = make(chan time.Time, 1) // time.After: the runtime's send never blocks
+			s.pending = append(s.pending, ch)
+		} else {
+			ch = make(chan time.Time)
+		}
 		s.timers = append(s.timers, ch)
 		s.mu.Unlock()
 		return ch
@@ -250,7 +291,7 @@ func botStart(colour string, size, secs int, gameNo string) *botSess {
 		log.SetOutput(io.Discard)
 		bot.VerifSetAfter(botTimerHook)
 	})
-	s := &botSess{colour: colour, gameStr: "Game#" + gameNo, lines: make(chan string), done: make(chan struct{})}
+	s := &botSess{colour: colour, gameStr: "Game#" + gameNo, lines: make(chan string), done: make(chan struct{}), timed: true}
 	var line string
 	switch colour {
 	case "w":
@@ -464,7 +505,7 @@ func init() {
 		}
 		return b.full()
 	}
-	// ev deliver <hex line> [mv=<move|err|->] [a=0|1] | ev aireturns <move> | ev timer | ev close
+	// ev deliver <hex line> [mv=<move|err|->] [a=0|1] | ev aireturns <move> | ev timer | ev drain | ev close
 	opTable["ev"] = func(s *Session, a []string) string {
 		b := botOf(s)
 		if b == nil || len(a) < 1 {
@@ -530,20 +571,21 @@ func init() {
 			r = "ai:" + strconv.Itoa(c.p.MoveNumber()) + ":" + strconv.Itoa(b2i(c.ctx.Err() != nil))
 			c.gate <- mv
 		case "timer":
-			b.mu.Lock()
-			var ch chan time.Time
-			if n := len(b.timers); n > 0 {
-				ch = b.timers[n-1]
-			}
-			b.mu.Unlock()
-			r = "idle"
-			if ch != nil {
-				select {
-				case ch <- time.Time{}:
-					r = "fired"
-				default:
+			r = b.expire()
+		case "drain": // a long time passes: every armed timer expires, oldest first
+			stale, fired := 0, 0
+			for {
+				x := b.expire()
+				if x == "idle" {
+					break
+				}
+				if x == "stale" {
+					stale++
+				} else {
+					fired++
 				}
 			}
+			r = fmt.Sprintf("drained:%d:%d", stale, fired)
 		default:
 			return "bad-op"
 		}
